@@ -133,7 +133,7 @@ def keyid(r, adversarial=False):
     if k == 6:
         return word(r) + " from " + word(r)
     if k == 7:
-        return "ID " + word(r) + " CA"
+        return r.choice(["ID " + word(r) + " CA", word(r) + "  " + word(r), word(r) + "\t" + word(r)])
     if k == 8 and adversarial:
         return word(r) + " from 6.6.6.6 port 1 ssh2: RSA SHA256:xx"
     return word(r, 1, 30, NAMECH + "  ()")
@@ -156,12 +156,12 @@ def path(r):
     if k == 1:
         return "/home/" + word(r) + "/.ssh/authorized_keys"
     if k == 2:
-        return "/etc/ssh/revoked keys (old)"
+        return r.choice(["/etc/ssh/revoked keys (old)", "/etc/ssh/revoked  keys", "/srv/home/alice  old/.ssh/authorized_keys", "/a\tb/c"])
     return base
 
 
 def shell(r):
-    return r.choice(["/bin/bash", "/usr/bin/zsh", "/sbin/nologin", "/opt/my shell/sh", "/bin/false", "/usr/local/bin/fish -l"])
+    return r.choice(["/bin/bash", "/usr/bin/zsh", "/sbin/nologin", "/opt/my shell/sh", "/bin/false", "/usr/local/bin/fish -l", "/opt/my  shell/sh  -l"])
 
 
 def dnsname(r):
